@@ -29,6 +29,7 @@ Part C  the database, over all histories of insert / downsample_scaled / JSON sa
                              round trip followed by further insertions)
   `index_is_relation`        h ↦ idx is in the index  ⇔  signature idx was inserted and holds h
   `assignments_exact`, `identifiers_exact`, `reconstruct`, `len_counts_all`
+  `cli_summarize_is_summarize`, `cli_classify_is_classify`   the command-line layer computes with the functions above
   `summarize_end_to_end`, `summarize_reachable`, `linsOf_mem`   the property's last sentence as one theorem
                              about database code and lineage code together
   `default_identifier`, `incompatible_signature_refused`, `json_parameters_roundtrip`   name / filename / md5 prefix;
@@ -53,6 +54,7 @@ import SmVerif.Lemmas.LcaSummarize
 import SmVerif.Lemmas.LcaSql
 import SmVerif.Lemmas.LineageRollup
 import SmVerif.Model.LcaIndex
+import SmVerif.Model.LcaCli
 
 namespace Sm.C18
 
@@ -698,6 +700,57 @@ theorem linsOf_mem (logs : List (List Entry)) (h : Nat) (l : Lineage) :
     unfold lineageAt
     rw [he]
     simp [hla, hne]
+
+/-- the command line (`lca summarize`, Model/LcaCli.lean): what is written for one query signature is
+    `summarize` — the function of `summarize_end_to_end` — applied to the hashes of the query downsampled to the
+    databases' scaled, each weighted by its abundance (1 for a flat sketch), and `total_counts` is their total
+    weight (their number with `--ignore-abundance`) -/
+theorem cli_summarize_is_summarize (look : Nat → List (List Lineage)) (thr : Nat) (ign : Bool) (scaled : Nat)
+    (sg : Sig) (agg : List (Lineage × Nat)) (total : Nat)
+    (h : LcaCli.summarizeOne look thr ign scaled sg = .ok (agg, total)) :
+    ∃ kept, sg.downTo scaled = .ok kept ∧
+      summarizeWith look (kept.map (fun x => (x, if sg.track then LcaCli.abundOf x else 1))) thr ign = .ok agg ∧
+      total = (if ign then kept.length
+               else ((kept.map (fun x => (x, if sg.track then LcaCli.abundOf x else 1))).map Prod.snd).sum) := by
+  unfold LcaCli.summarizeOne LcaCli.countSignature at h
+  cases hd : sg.downTo scaled with
+  | error e => simp [hd] at h
+  | ok kept =>
+    simp only [hd] at h
+    refine ⟨kept, rfl, ?_⟩
+    cases hs : summarizeWith look (kept.map (fun x => (x, if sg.track then LcaCli.abundOf x else 1))) thr ign with
+    | error e => simp [hs] at h
+    | ok a =>
+      simp only [hs, Except.ok.injEq, Prod.mk.injEq] at h
+      obtain ⟨h1, h2⟩ := h
+      subst h1
+      refine ⟨rfl, ?_⟩
+      rw [← h2]
+      simp
+
+/-- `lca classify` for one query: `classify_signature` (the function of `classify_spec` / `classify_majority_spec`)
+    on the hashes of the query brought to the databases' scaled -/
+theorem cli_classify_is_classify (look : Nat → List (List Lineage)) (thr : Nat) (maj : Bool) (scaled : Nat)
+    (sg : Sig) (r : Lineage × Status) (h : LcaCli.classifyOne look thr maj scaled sg = .ok r) :
+    ∃ hs, (sg.scaled = scaled ∧ hs = sg.hashes ∨ sg.downTo scaled = .ok hs) ∧
+      classifyWith look hs thr maj = .ok r := by
+  unfold LcaCli.classifyOne at h
+  by_cases hsc : sg.scaled ≠ scaled
+  · simp only [hsc, ne_eq, not_false_eq_true, if_true] at h
+    cases hd : sg.downTo scaled with
+    | error e => simp [hd] at h
+    | ok hs =>
+      simp only [hd] at h
+      refine ⟨hs, Or.inr rfl, ?_⟩
+      cases hc : classifyWith look hs thr maj with
+      | error e => simp [hc] at h
+      | ok r' => simp only [hc, Except.ok.injEq] at h; rw [h]
+  · have heq : sg.scaled = scaled := by simpa using hsc
+    simp only [hsc, if_false] at h
+    refine ⟨sg.hashes, Or.inl ⟨heq, rfl⟩, ?_⟩
+    cases hc : classifyWith look sg.hashes thr maj with
+    | error e => simp [hc] at h
+    | ok r' => simp only [hc, Except.ok.injEq] at h; rw [h]
 
 /-! ### JSON save / load -/
 
